@@ -140,7 +140,7 @@ def _frontend_tie(k, order, lefts):
     """Native: priorities/associativity written as grammar meta-data land in Production.prior/.assoc,
     and the table built from the text equals the table built by attribute assignment."""
     ops = [OPS[i] for i in order]
-    for prios in itertools.product(range(1, k + 1), repeat=k):
+    for prios in itertools.product(range(0, k + 1), repeat=k):  # 0 included: a declared priority 0 is not 'missing'
         if any(prios[a] == prios[b] and lefts[a] != lefts[b] for a in range(k) for b in range(k)):
             continue
         alts = ["E '%s' E {%s, %d}" % (OPS[i], "left" if lefts[i] else "right", prios[i]) for i in order]
